@@ -103,7 +103,9 @@ func micWrappers(c *Ctx, rule string, join bool) {
 			}
 			compareBytes(c, in, rule, wc.set+tag+"/stored", "", after, vals(mic...), okc, nil)
 			return nil
-		}, func(tag string, err error) { r.Unknown(rule, wc.name+tag, "", "inside the interpreter's subset", err.Error()) })
+		}, func(tag string, err error) {
+			r.Unknown(rule, wc.name+tag, "", "inside the interpreter's subset", err.Error())
+		})
 	}
 	if !join {
 		// ValidateUplinkDataMICF: compares bytes 2..3 with the 1.1 MIC computed with (fNwkSIntKey, fNwkSIntKey), 0,0,0
